@@ -109,11 +109,12 @@ def harnesses():
 
 # ====================================================================== stage B: operands, comparator, query descriptor
 from pyvc.values import Opaque, Builtin, PyList, PySet
+from pyvc.ops import make_dict
 from .eqlmodel import vid, boolval, iterable, HD
 
 FUNCTIONS += [(SYM, "Comparator._evaluate__"), (SYM, "Comparator.apply_operation"), (SYM, "Comparator.get_first_second_operands"),
               (SYM, "Variable._evaluate__"), (SYM, "DomainMapping._evaluate__"),
-              (SYM, "DomainMapping._build_operation_result_and_update_truth_value_"), (SYM, "Attribute._apply_mapping_"),
+              (SYM, "DomainMapping._build_operation_result_and_update_truth_value_"), (SYM, "Attribute._apply_mapping_"), (SYM, "Index._apply_mapping_"), (SYM, "Call._apply_mapping_"),
               (SYM, "QueryObjectDescriptor._evaluate__"), (SYM, "QueryObjectDescriptor.get_constrained_values"),
               (SYM, "QueryObjectDescriptor.evaluate_selected_variables"), (SYM, "QueryObjectDescriptor._evaluate_selected_variables_from_"),
               (SYM, "QueryObjectDescriptor.evaluate_conclusions_and_update_bindings"),
@@ -121,7 +122,7 @@ FUNCTIONS += [(SYM, "Comparator._evaluate__"), (SYM, "Comparator.apply_operation
               (SYM, "ResultQuantifier._process_result_"), (SYM, "optimize_or"), (SYM, "SymbolicExpression._invert_"),
               (SYM, "ForAll._invert_"), (SYM, "Exists._invert_"), (SYM, "ResultQuantifier._invert_"), (SYM, "QueryObjectDescriptor._invert_"),
               (HD, "HashedValue.__post_init__")]
-BOUNDED_ONLY_CLAUSES = ["ForAll / Exists, Index / Call / Flatten, predicates inside queries and whole-query composition are decided by the "
+BOUNDED_ONLY_CLAUSES = ["ForAll / Exists, Flatten, predicates inside queries and whole-query composition are decided by the "
                         "bounded oracle driver only", "== / != on two iterables (krrood compares them as sets) is excluded from the Comparator lemma"]
 
 
@@ -305,8 +306,10 @@ def variable_harness(role, below="AND"):
                    timeout_ms=3000, retry_unknown=False, ematching_only=True)
 
 
-def attribute_harness(role, below="Not"):
-    prefix = f"Attribute._evaluate__[{role}]"
+def attribute_harness(role, below="Not", kind="Attribute"):
+    """DomainMapping._evaluate__ with the real _apply_mapping_ of Attribute (x.a), Index (x[k]) or Call (x(*args)): the node's
+    value is that function of the child's value, in operand and in condition role"""
+    prefix = f"{kind}._evaluate__[{role}]"
 
     def run(vm):
         ctx = vm.ctx
@@ -316,8 +319,13 @@ def attribute_harness(role, below="Not"):
         fa = world.attr_fn("a")
         parent = vm.alloc(vm.loader.cls(SYM, "Comparator"), {"_id_": 10}, tag="parent") if role == "operand" else condition_parent(vm, below)
         other_root = vm.alloc(vm.loader.cls(SYM, "SymbolicExpression"), {"_id_": 1}, tag="conditions-root")
-        node = vm.alloc(vm.loader.cls(SYM, "Attribute"), {"_child_": child, "_attr_name_": "a", "_owner_class_": None, "_id_": 22, "_is_false_": False,
-                                                         "_eval_parent_": None, "_conditions_root_": other_root}, tag="Attribute")
+        extra = {"Attribute": {"_attr_name_": "a", "_owner_class_": None}, "Index": {"_key_": 3},
+                 "Call": {"_args_": (5,), "_kwargs_": make_dict([])}, "Call0": {"_args_": (), "_kwargs_": make_dict([])}}[kind]
+        node = vm.alloc(vm.loader.cls(SYM, kind.rstrip("0")), {"_child_": child, "_id_": 22, "_is_false_": False,
+                                                               "_eval_parent_": None, "_conditions_root_": other_root, **extra}, tag=kind)
+        # x[3] / x(5) / x() of a value are (uninterpreted) functions of that value, like x.a
+        vm.spec.opaque_hooks["getitem"] = lambda it, v, k: STerm(fa(v.t)) if isinstance(v, STerm) and k == 3 else it.raise_("KeyError", k)
+        vm.spec.opaque_hooks["sterm_call"] = lambda it, v, a, k: STerm(fa(v.t)) if (list(a) == list(extra.get("_args_", ("no",))) and not k) else it.raise_("TypeError", "arguments")
         if role == "operand":
             vm.spec.havoc_exclude = set(vm.spec.havoc_exclude) | {"_is_false_"}        # frame condition proved by frame-DomainMapping below
         ctx.assume(z3.Not(bound(world.sigma0, vid(22))))
@@ -331,13 +339,14 @@ def attribute_harness(role, below="Not"):
             cl = world.record(vm, res)
             check_cover_per_yield(vm, world, cl, h, prefix)
             t = ctx.fresh_const("tau", Ts)
-            ctx.check(f"{prefix}::binds-its-id-to-the-attribute-of-the-child-value",
+            ctx.check(f"{prefix}::binds-its-id-to-the-{'attribute' if kind == 'Attribute' else 'item' if kind == 'Index' else 'result'}-of-the-child-value",
                       z3.And(bound(cl["b"], vid(22)), z3.Implies(ext(cl["b"], t), get(cl["b"], vid(22)) == val(t))))
             check_frame(vm, world, cl, 22, ["child"], prefix)
 
     def tau_hyps(world, t):
         return [tval(t, vid(22)) == world.attr_fn("a")(world.children["child"].val(t))]
-    return Harness(f"value-Attribute[{role}]" if role == "operand" else f"value-Attribute[{role}<{below}]", run, spec=Spec(), covers=["yielded"], finalize=finish(prefix, True, tau_hyps),
+    name = f"value-{kind}[{role}]" if role == "operand" else f"value-{kind}[{role}<{below}]"
+    return Harness(name, run, spec=Spec(), covers=["yielded"], finalize=finish(prefix, True, tau_hyps),
                    timeout_ms=3000, retry_unknown=False, ematching_only=True)
 
 
@@ -569,7 +578,8 @@ _stage_a = harnesses
 
 
 def harnesses():
-    return _stage_a()[:-1] + [comparator_harness("generic"), comparator_harness("eq"), variable_harness("operand"), attribute_harness("operand")] + \
+    return _stage_a()[:-1] + [comparator_harness("generic"), comparator_harness("eq"), variable_harness("operand"), attribute_harness("operand"), attribute_harness("operand", kind="Index"), attribute_harness("operand", kind="Call"),
+                              attribute_harness("operand", kind="Call0"), attribute_harness("condition", "AND", kind="Index"), attribute_harness("condition", "Not", kind="Call")] + \
         [variable_harness("condition", k) for k in condition_parent_kinds()] + [attribute_harness("condition", k) for k in condition_parent_kinds()] + \
         [hashed_value_harness(), frame_domain_mapping(),
                               descriptor_harness(1), descriptor_harness(2), descriptor_no_condition(), process_result_harness(),
